@@ -98,6 +98,9 @@ def run_book(ctx, bi, ncalls, replay=None, source=None):
         for _ in range(rng.randrange(0, 3)):
             si = rng.randrange(ns)
             ov[(si, rng.randrange(1, 14), rng.randrange(1, 12))] = books.const(rng)
+        if rng.random() < 0.12:
+            # a column whose letters have two characters (the A1 spelling of overrides and the grid width beyond Z)
+            ov[(rng.randrange(ns), rng.randrange(1, 6), rng.choice([26, 27, 28, 52, 53]))] = books.const(rng)
         return ov
     if replay:
         ovA = {(s_, *wbspec.rc(a)): wbspec.dec(v) for (s_, a, v) in replay['overridesA']}
